@@ -323,8 +323,14 @@ class World:
                         # this injector's 24-hour timer fires just before its k-th mutating call (qmail-queue's own SIGALRM handler runs)
                         env_i["VSHIM_SIGNAL"] = "inj%d:%d:14" % (started, al["k"])
                         out["classes"].add("injector_alarm")
+                    pre = None
+                    if al and al["inj"] == started and al.get("blocked"):
+                        # the caller had SIGALRM blocked: a signal mask is inherited across exec, and the injector is documented to clear it
+                        # first thing - otherwise its 24-hour death timer (on which the 36-hour collection rule rests) could never fire
+                        pre = lambda: signal.pthread_sigmask(signal.SIG_BLOCK, [signal.SIGALRM])
+                        out["classes"].add("injector_alarm_inherited_blocked_mask")
                     p = subprocess.Popen([self.tree.path("qmail-queue")], stdin=open(mf, "rb"), stdout=open(ef, "rb"), stderr=subprocess.DEVNULL,
-                                         env=env_i, cwd="/", start_new_session=True)
+                                         env=env_i, cwd="/", start_new_session=True, preexec_fn=pre)
                     inj.append(p)
                     started += 1
                     t_end = time.time() + gate.WATCHDOG
@@ -463,6 +469,13 @@ class World:
             inj_fault = bool(sc.get("fault")) and sc["fault"]["key"].startswith("inj")       # an injector with a failing call reports it
             if rc != 0 and not crashed and not inj_fault and not any(m.get("bad_env") for m in sc["messages"]) and not (sc.get("alarm") and rc == 52):
                 return "injector exited %r" % rc
+        if sc.get("alarm") and not crashed and not sc.get("fault") and sc["alarm"]["inj"] < len(inj):
+            # the death timer of an injector expired (the interposer raised SIGALRM in it): it is documented to stop there and then (exit 52),
+            # whatever signal mask it was started with - the collection of S2/S3 leftovers after 36 hours relies on it
+            rc = inj[sc["alarm"]["inj"]].returncode
+            fired = any(e["call"] == "SIGNAL" and e["key"].startswith("inj%d." % sc["alarm"]["inj"]) for e in h.read_trace())
+            if fired and rc != 52:
+                return "injector %d went on after its 24-hour timer expired (exit status %r, documented 52)" % (sc["alarm"]["inj"], rc)
         snap, bad, pids = h.snapshot()
         v = self.check_post(snap, bad)
         if v:
@@ -514,6 +527,8 @@ def scenario(draw):
         sc["second_daemon_at"] = draw(st.integers(0, 60))
     if draw(st.integers(0, 5)) == 0:
         sc["alarm"] = {"inj": draw(st.integers(0, nm - 1)), "k": draw(st.integers(0, 12))}
+        if draw(st.booleans()):
+            sc["alarm"]["blocked"] = True
     if not sc.get("crash") and draw(st.integers(0, 4)) == 0:
         sc["fault"] = {"key": draw(st.sampled_from(["send.qmail-send", "send.qmail-send", "clean.qmail-clean", "inj0", "inj1"])),
                        "cls": draw(st.sampled_from(["unlink", "unlink", "unlink", "link", "open", "write", "fsync", "stat", "read"])),
@@ -616,6 +631,8 @@ def crash_sweep_scenarios():
         # the injector's 24-hour alarm at every one of its mutating steps (added after seeded change C02-D)
         for k in range(13):
             out.append(dict(base, tape=list(tape), alarm={"inj": 0, "k": k}))
+            if k % 3 == 1:
+                out.append(dict(base, tape=list(tape), alarm={"inj": 0, "k": k, "blocked": True}))
     # one failing unlink()/link() at every position in the daemon and the cleaner (added after seeded change C02-C: the removal order must
     # also survive an I/O error on the step before)
     for key, cls, n in (("send.qmail-send", "unlink", 12), ("clean.qmail-clean", "unlink", 6), ("send.qmail-send", "stat", 10), ("send.qmail-send", "open", 12),
